@@ -67,8 +67,62 @@ def _np_safe(sp, recs):
     return out
 
 
+BUILTIN_QUANTITIES = [
+    "lambda d: round(d['x']) + abs(d['x']) + min(d['x'], 1) + max(d['x'], -1) + int(d['x'] > 0)",
+    "lambda d: round(d['x'], 1) * pow(2, 1) + divmod(abs(d['x']), 2)[1] + float(bool(d['x']))",
+    "lambda d: sum(sorted([d['x'], 1.0, -d['x']])[:2]) + len(str(int(d['x']))) + (1 if any([d['x'] > 1]) else 0) + (1 if all([d['x'] < 4]) else 0)",
+    "lambda d: float(round(d['x'] * 2)) / 2 + len(list(range(int(abs(d['x']))))) + len(tuple(zip([1], [2]))) + len(dict(a=1)) + len(set([1, 1])) + len(list(map(abs, [d['x']]))) + len(list(filter(None, [d['x']]))) + len(list(enumerate([d['x']])))",
+    "lambda d: (hash(1) == 1) + isinstance(d['x'], float) + (repr(1) == '1') + (type(d['x']).__name__ == 'float') + getattr(d['x'], 'real', 0) + (ord(chr(65)) == 65) + round(d['x'])",
+]
+
+
+def _builtin_case(i, rng, tier):
+    """A quantity written with Python's built-ins (round, abs, min, max, int, pow, divmod, sorted, len ...): the clone's
+    rebuilt function must resolve every one of them to the same built-in (its globals are not the user's module)."""
+    hg = env.hg()
+    src = BUILTIN_QUANTITIES[(i // 20) % len(BUILTIN_QUANTITIES)]
+    failures = []
+    counters = {"builtin_quantity_cases": 1}
+    vals = [0.5, 1.5, 2.5, -0.5, -1.5, -2.5, 0.125, 0.375, 3.0, 0.0, -0.0, 1.0, 2.675, 1e-9]
+    wit = {"quantity": src}
+
+    def make():
+        q1, q2 = eval(src, {}), eval(src, {})
+        return hg.UntypedLabel(s=hg.Sum(q1), b=hg.Bin(8, -4.0, 12.0, q2, hg.Count(), hg.Count(), hg.Count(), hg.Count()))
+
+    h = make()
+    for _ in range(rng.randint(0, 3)):
+        h.fill({"x": rng.choice(vals)}, 1.0)
+    proto = rng.choice([2, 3, 4, 5])
+    try:
+        c = pickle.loads(pickle.dumps(h, proto))
+    except Exception as e:  # noqa: BLE001
+        failures.append(C.fail(None, "pickle round trip raised %s: %s" % (type(e).__name__, str(e)[:200]), **wit))
+        return {"digest": C.digest("builtin", src, proto), "nontrivial": False, "failures": failures, "counters": counters, "sets": {}}
+    steps = []
+    for _ in range(rng.randint(3, 10)):
+        v, w = rng.choice(vals), rng.choice([1.0, 0.5, 2.0])
+        res = []
+        for x_ in (h, c):
+            try:
+                x_.fill({"x": v}, w)
+                res.append(None)
+            except Exception as e:  # noqa: BLE001
+                res.append(type(e).__name__)
+        steps.append([v, w])
+        counters["lockstep_comparisons"] = counters.get("lockstep_comparisons", 0) + 1
+        if res[0] != res[1] or O.text(h) != O.text(c):
+            d = O.diff(json.loads(O.text(h)), json.loads(O.text(c)), 0.0, exact=True) if res[0] == res[1] else []
+            failures.append(C.fail(None, "a quantity using built-ins: after filling x=%r the original %s and the clone %s%s" % (v, res[0] or "succeeded", res[1] or "succeeded", ": " + C.fmt_diff(d) if d else ""), steps=steps, **wit))
+            break
+    return {"digest": C.digest("builtin", src, proto, steps), "nontrivial": True, "failures": failures, "counters": counters, "sets": {}, "sample": {"kind": "built-in functions in the quantity", "quantity": src, "fills": steps[:4]}}
+
+
 def run_case(i, rng, tier):
     from histogrammar.defs import Factory
+
+    if i % 20 == 13:
+        return _builtin_case(i, rng, tier)
 
     label, sp = C.pick_spec(i, rng, tier)
     force = None
@@ -77,8 +131,11 @@ def run_case(i, rng, tier):
         # every quantity a one-variable string expression: such a tree may also be filled with bare numbers
         force = "str"
         bare = True
-    stream = S.gen_stream(rng, sp, rng.randint(0, 8))
     state = ("live", "live", "merged", "reloaded")[i % 4]
+    # boolean categories are legitimate Categorize keys (not together with reloaded operands: the C04 known finding
+    # about True vs 'True' keys would leak into the final model comparison)
+    sopts = {"cat_bool": True} if state != "reloaded" else {}
+    stream = S.gen_stream(rng, sp, rng.randint(0, 8), sopts)
     if i % 10 == 7:
         state = "built"  # assembled by Stack.build / Fraction.build from filled trees
     proto = rng.choice([2, 3, 4, 5])
@@ -309,7 +366,7 @@ def conclusive(agg):
     for fl in S.FLAVOURS:
         if fl not in agg.sets.get("flavours", ()):
             out.append("quantity flavour never generated: " + fl)
-    for c in ("state:live", "state:merged", "state:reloaded", "state:built", "built_merges", "bare_value_fills", "missing_field_fills", "lockstep_comparisons", "final_ghost_checks"):
+    for c in ("state:live", "state:merged", "state:reloaded", "state:built", "built_merges", "bare_value_fills", "missing_field_fills", "builtin_quantity_cases", "lockstep_comparisons", "final_ghost_checks"):
         if not agg.counters.get(c):
             out.append("never exercised: " + c)
     miss = [k for k in S.ALL_KINDS if k not in agg.sets.get("kinds", ())]
